@@ -90,12 +90,12 @@ def main():
             hits = sorted(k for k, v in det.items() if v.get("caught"))
             miss = sorted(k for k, v in det.items() if not v.get("caught"))
             own = det.get("%s/quick" % pid, {})
-            out.append("* seeded change `%s` (%s): own check %s%s; also caught by: %s; silent in: %s"
+            out.append("* seeded change `%s` (%s): own check %s%s; also caught by: %s; %s"
                        % (name, (summaries.get(name) or "see seeded/%s/notes.md" % name),
                           "**catches it**" if own.get("caught") else "MISSES it",
                           (" (`%s`)" % ", ".join(s.replace("slug=", "") for s in own.get("slugs", [])[:3])) if own.get("slugs") else "",
                           ", ".join(k.split("/")[0] for k in hits if not k.startswith(pid)) or "—",
-                          ", ".join(k.split("/")[0] for k in miss) or "—"))
+                          ("%d other checks tried, silent" % len([k for k in miss if not k.startswith(pid)])) if det else "no other check tried yet"))
         out.append("")
     out.append(END)
     text = "\n".join(out)
